@@ -162,6 +162,31 @@ Proof.
   - right. exists [mkopt 2 4 [5;180] 0 MPnone; nop; nop]. reflexivity.
 Qed.
 
+(* ... and every layer value obtained by successfully decoding ANY byte string into ANY receiver is
+   representable unless it carries an MPTCP option (kind 30, the known finding below) - so the
+   round trip holds "for all field values reachable by decoding" *)
+From GP Require Import LtcpDecoded.
+Theorem C06_tcp_decoded_wf : forall old data extra t tr,
+  bytes_ok data -> decode_into old data extra = (t, tr, Ok tt) -> no_mptcp (t_opts t) ->
+  tcp_wf t /\ tr = false.
+Proof. exact decode_wf. Qed.
+Print Assumptions C06_tcp_decoded_wf.
+
+Theorem C06_tcp_roundtrip_decoded : forall old data extra t tr payload ph junk,
+  bytes_ok data -> decode_into old data extra = (t, tr, Ok tt) -> no_mptcp (t_opts t) ->
+  exists bytes t' t2,
+    serialize t payload true true (Some ph) junk = (Ok bytes, t') /\
+    decode_into tcp0 bytes [] = (t2, false, Ok tt) /\
+    core t2 = core t' /\ t_payload t2 = payload /\ t_contents t2 ++ t_payload t2 = bytes /\
+    (forall junk2, fst (serialize t2 (t_payload t2) true true (Some ph) junk2) = Ok bytes).
+Proof.
+  intros old data extra t tr payload ph junk Hb Hd Hn.
+  destruct (decode_wf old data extra t tr Hb Hd Hn) as [Hwf _].
+  destruct (roundtrip t payload ph junk Hwf) as (bytes & t' & t2 & H1 & H2 & H3 & H4 & H5 & _ & H7).
+  exists bytes, t', t2. repeat split; assumption.
+Qed.
+Print Assumptions C06_tcp_roundtrip_decoded.
+
 (* known finding: a decoded layer with an MPTCP option (MP_CAPABLE, 4 bytes) is written as kind 30,
    length 2, no body, and the bytes do not decode back *)
 Theorem C06_tcp_mptcp_refuted :
